@@ -593,6 +593,48 @@ def peel_root(t):
             return t
 
 
+def rule_panic_propagates(m, rep, rid='R1'):
+    """A panic of the wrapped sink must reach the sentinel (which counts it and restarts the worker): from the unwind
+    edge of the wrapped emit in the task, and of the task call in run(), control only ever resumes unwinding - it is
+    never caught and turned back into normal control flow (std::panic::catch_unwind is modelled as exactly that)."""
+    cad = m.cad
+
+    def swallowed(b, sites):
+        bad = []
+        for bi in sites:
+            t = b.blocks[bi]['term']
+            u = t.get('unwind')
+            if not isinstance(u, int):
+                if u in ('unreachable', 'terminate', 'abort') or (isinstance(u, dict)):
+                    bad.append((bi, 'the unwind edge is cut (%s)' % (u,)))
+                continue
+            r = reach(b, [u], unwind=True)
+            rets = [x for x in r if b.blocks[x]['term']['k'] == 'return']
+            if rets:
+                bad.append((bi, 'the panic is caught and the function returns normally'))
+        return bad
+    tb = inl(cad, m.task_closure)
+    emits = [bi for bi, t in tb.calls() if not tb.blocks[bi]['cleanup'] and callee_is(t, SINK_TRAIT + '::emit')]
+    rep.sites(len(emits))
+    if not emits:
+        rep.unknown(rid, 'panic-reaches-sentinel/task', tb.where(), 'no call of the wrapped emit found in the task')
+    else:
+        bad = swallowed(tb, emits)
+        rep.ob(rid, 'panic-reaches-sentinel/task', not bad, tb.where(bad[0][0]) if bad else tb.where(emits[0]),
+               'a panic of the wrapped emit unwinds out of the task' if not bad else
+               'a panic raised by the wrapped sink never reaches the sentinel (%s): it is neither counted nor does it restart the worker' % bad[0][1])
+    rb = inl(cad, m.run)
+    Tr = Terms(rb)
+    tcs = [bi for bi, _ in m.task_calls(rb, Tr)]
+    rep.sites(len(tcs))
+    if not tcs:
+        rep.unknown(rid, 'panic-reaches-sentinel/run', rb.where(), 'no call of the task found in run()')
+    else:
+        bad = swallowed(rb, tcs)
+        rep.ob(rid, 'panic-reaches-sentinel/run', not bad, rb.where(bad[0][0]) if bad else rb.where(tcs[0]),
+               'a panic of the task unwinds out of run()' if not bad else 'run() swallows a panic of the task (%s)' % bad[0][1])
+
+
 def rule_panics_getter(m, rep, rid='R4'):
     ok = m.counters.get('panics') is not None
     rep.ob(rid, 'panics-reads-the-incremented-counter', ok, '', 'QueuingMetricSink::panics() loads `%s`, the field the sentinel increments' % m.counters.get('panics'))
@@ -601,7 +643,8 @@ def rule_panics_getter(m, rep, rid='R4'):
 # ------------------------------------------------------------------ C16-R2/R3
 def rule_handler_plumbing(m, rep):
     cad = m.cad
-    rule_builder_frame(cad, rep, QB, {'with_capacity': ('capacity', 'some-param'), 'with_error_handler': ('error_handler', 'some-box')}, rid='R2')
+    # the handler setter stores the given handler, every other builder method carries it over (capacity is C10's)
+    rule_builder_frame(cad, rep, QB, {'with_error_handler': (names(cad).qb_handler, 'some-box')}, rid='R2', value_only=True, protect=names(cad).qb_handler, protect_label='error_handler')
     T = Terms(m.build)
     clos = []
     for blk_i, blk in enumerate(m.build.blocks):
@@ -611,13 +654,13 @@ def rule_handler_plumbing(m, rep):
     ok = False
     if len(clos) == 1:
         caps = dict(clos[0][2])
-        hv = [v for n, v in caps.items() if v == ('field', ('param', 1), 'error_handler')]
+        hv = [v for n, v in caps.items() if v == ('field', ('param', 1), names(cad).qb_handler)]
         ok = len(hv) == 1
     rep.ob('R2', 'build-moves-handler-into-task', ok, m.build.where(), 'the task closure captures self.error_handler unchanged' if ok else 'the configured handler does not reach the task closure')
     # every way to obtain a fresh builder (new(), Default) starts with no handler
     dflt = [i for i in cad.impls_of('core::default::Default') if i.get('self_adt') == QB]
     derived = len(dflt) == 1 and dflt[0]['derived']
-    hty = [f['ty'] for f in adt_fields(cad, QB) if f['name'] == 'error_handler']
+    hty = [f['ty'] for f in adt_fields(cad, QB) if f['name'] == names(cad).qb_handler]
     opt_field = bool(hty) and type_head(hty[0]) == 'core::option::Option'
 
     def starts_none(body, depth=0):
@@ -626,7 +669,7 @@ def rule_handler_plumbing(m, rep):
             return False
         for r in rts:
             if r[0] == 'adt' and r[1] == QB:
-                v = dict(r[3]).get('error_handler')
+                v = dict(r[3]).get(names(cad).qb_handler)
                 v = norm(v) if v is not None else None
                 if v is None or not (v[0] == 'adt' and v[2] == 'None' or term_callee_is(v, 'as core::default::Default>::default')):
                     return False
